@@ -89,7 +89,7 @@ def remoteTeardown (o : OSet) (ph : PhaseSpec) (w : World) : World × TRes :=
     else
       -- (namespace-in-deletion shortcut not modelled: the harness namespace is never deleting)
       let w := w.tick
-      if cur.finCached then
+      if cur.finCached || cur.finOrphan then      -- (S1B: the "orphan" finalizer holds the object as well)
         if cur.deleting then ({ w with phaseEvents := w.phaseEvents ++ [PhaseEvent.delete n none] }, .notDone)
         else
           let (w, rv) := freshRV w
@@ -115,7 +115,7 @@ def lockedPhaseWrite (w : World) (mem : OPhase) (f : OPhase → OPhase) : World 
     if cur.rv ≠ mem.rv then (w, .error .conflict)
     else
       let next := f cur
-      if next.deleting && !next.finCached then (setPhase w mem.name none, .ok next)
+      if next.deleting && !next.finCached && !next.finOrphan then (setPhase w mem.name none, .ok next)
       else if next = cur then (w, .ok cur)
       else
         let (w, rv) := freshRV w
@@ -160,8 +160,9 @@ def reconcilePhaseCtl (cfg : Cfg) (setKind ns : String) (name : String) (s : Sys
     let ow := phaseOwner mem setKind ns
     if mem.deleting then
       -- handleDeletionAndArchival, then ALWAYS a status update
+      -- `objectSetPhaseReconciler.Teardown`: "orphan" finalizer present ⇒ cleanup is done, nothing is touched
       let (w, tr) : World × TRes :=
-        if mem.finCached then teardownPhase cfg ow mem.objs s.w else (s.w, .done)
+        if mem.finCached then (if mem.finOrphan then (s.w, .done) else teardownPhase cfg ow mem.objs s.w) else (s.w, .done)
       match tr with
       | .err => ({ s with w := w }, .err)
       | .notDone =>
@@ -197,5 +198,71 @@ def reconcilePhaseCtl (cfg : Cfg) (setKind ns : String) (name : String) (s : Sys
             else { mem with conds := removeCond mem.conds "Paused" }
           let (w, r) := afterPhaseStatus (updatePhaseStatus w mem) .ok
           ({ s with w := w }, r)
+
+/-! ### Third-party operations on phase objects (S1B)
+
+What the API server / the garbage collector do to an ObjectSetPhase object on behalf of somebody
+else than PKO — the counterpart of `Sys.applySetEnv (.delete …)` for ObjectSets.  The format is
+the one of `harness/verifsys/sys.go` (`deletePhaseObject`, `gcPhaseObject`). -/
+
+/-- a metadata-only write of a third party on a phase object: new resourceVersion. -/
+def thirdPartyPhaseStore (w : World) (cur next : OPhase) : World :=
+  if next = cur then w
+  else
+    let (w, rv) := freshRV w
+    setPhase w cur.name (some { next with rv := rv })
+
+/-- a delete request as the API server handles it: finalizers turn it into `deleting`. -/
+def apiDeletePhase (w : World) (n : String) : World :=
+  match w.phases n with
+  | none => w
+  | some c =>
+    if c.finCached || c.finOrphan then
+      if c.deleting then w else thirdPartyPhaseStore w c { c with deleting := true }
+    else setPhase w n none
+
+/-- the garbage collector on the dependents of owner `uid`: every object among `keys` (visited in
+this order) loses its owner references to it; with `deleteUnowned` a dependent left without any
+owner is deleted (honouring its finalizer). -/
+def gcDependents (st : Store) (uid : String) (keys : List Key) (deleteUnowned : Bool) : Store :=
+  keys.foldl (fun (st : Store) k =>
+    match st.get k with
+    | some o =>
+      if o.owners.any (·.uid == uid) then
+        let keep := o.owners.filter (·.uid != uid)
+        let st := st.env (.reown k keep)
+        if deleteUnowned && keep.isEmpty then st.env (.delete k) else st
+      else st
+    | none => st) st
+
+/-- `delPhase`: delete request of a third party.  `orphan`: orphan propagation (the API server adds
+the "orphan" finalizer before marking the object); `force`: every finalizer is stripped first, the
+object is gone at once and the garbage collector cleans up the dangling owner references. -/
+def deletePhaseObject (w : World) (n : String) (orphan force : Bool) (keys : List Key) : World :=
+  match w.phases n with
+  | none => w
+  | some c =>
+    if force then
+      -- stripping the finalizers of an object in deletion removes it (no new resourceVersion);
+      -- otherwise the edit is stored (if there was something to strip) and the delete removes it
+      let w := if c.deleting then w else thirdPartyPhaseStore w c { c with finCached := false, finOrphan := false }
+      let w := setPhase w n none
+      { w with store := gcDependents w.store c.uid keys true }
+    else
+      let w := if orphan then thirdPartyPhaseStore w c { c with finOrphan := true } else w
+      apiDeletePhase w n
+
+/-- `gcPhase`: the garbage collector's half of an orphan deletion — every dependent among `keys`
+loses its owner references to the phase object, then the "orphan" finalizer is released; the
+object disappears with its last finalizer. -/
+def gcPhaseObject (w : World) (n : String) (keys : List Key) : World :=
+  match w.phases n with
+  | none => w
+  | some c =>
+    if !(c.deleting && c.finOrphan) then w
+    else
+      let w := { w with store := gcDependents w.store c.uid keys false }
+      if c.finCached then thirdPartyPhaseStore w c { c with finOrphan := false }
+      else setPhase w n none
 
 end Pko.Model.Remote
